@@ -337,8 +337,10 @@ impl<R: Read, TSpec> TagIterator<R, TSpec>
             }
         }
 
-        if (self.allowed_errors & OVERSIZED_CHILD_ERROR == 0) && size.is_known() && self.is_invalid_tag_size(header_len + size.value()) {
-            return Err(TagIteratorError::CorruptedFileData(CorruptedFileError::OversizedChildElement{ position: self.current_offset(), tag_id, size: size.value()}));
+        // An element of unknown size still has to fit its header into every enclosing master of known size
+        let known_size = if let Known(size) = size { size } else { 0 };
+        if (self.allowed_errors & OVERSIZED_CHILD_ERROR == 0) && self.is_invalid_tag_size(header_len + known_size) {
+            return Err(TagIteratorError::CorruptedFileData(CorruptedFileError::OversizedChildElement{ position: self.current_offset(), tag_id, size: known_size}));
         }
 
         if let Some(max_size) = self.max_allowed_tag_size {
